@@ -85,6 +85,7 @@ def obligations(tier: str):
             add(f"tree_{dec}_f3b_create", fixture="f3b", rep="tree", decider=dec, max_depth=2)
             add(f"tree_{dec}_f5ctx_create", fixture="f5ctx", rep="tree", decider=dec, max_depth=3)
             if dec == "grow":
+                add("tree_grow_f16_create", fixture="f16", rep="tree", decider="grow", max_depth=2)
                 add("tree_grow_f15_create", fixture="f15", rep="tree", decider="grow", max_depth=3)
                 add("tree_grow_f15_mutate", fixture="f15", rep="tree", decider="grow", max_depth=3, ops=["mutate"])
         if T:
